@@ -121,6 +121,8 @@ def run_driver(pid, rel, o, res):
         # driver protocol: exit 3 = clause violated natively (confirmed); 0 = clause holds natively; other = could not construct
         if p.returncode == 3:
             return True, out
-        return False, ("clause holds natively (driver exit %d): " % p.returncode) + out
+        if p.returncode == 0:
+            return False, "clause holds natively (driver exit 0): " + out
+        return False, ("witness state could not be constructed natively (driver exit %d): " % p.returncode) + out
     finally:
         shutil.rmtree(work, ignore_errors=True)
